@@ -79,6 +79,18 @@ CHECKS = {
          "only. Exact half-frame rounding ties and negative onsets are outside.",
     technique="symbolic execution of real code (CrossHair/z3) vs independent rasteriser",
     ref="DESIGN.md §2 C13"),
+ "C04": dict(
+    text="Engine B: the tick conversion save_score_midi.to_ppq is translated from the live source (AST -> z3): a relative-error lemma over the "
+         "reals (|float value - ppq*t/q| <= 1/1000 for every divisions value in the set, t <= 2^16) plus a conversion step (the int()/round "
+         "wrapper found in the source maps every value within 1/1000 of an integer K to K); if the proof fails a bit-precise binary64 search "
+         "finds a concrete input, which is replayed through save_score_midi before it is reported. Engine A: symbolic execution of "
+         "save_score_midi(out=None) on 1-2 part scores with symbolic onsets/durations/voice/velocity, read by an independent reader "
+         "(exact ticks, lcm ppq doubled to minimum_ppq, velocity, track/channel grouping per mode, pickup policies) and of "
+         "map_to_track_channel against the documented table.",
+    note="MIDI bytes and load_score_midi (quantisation, estimate_* analyses) are not encoded: the import half of the property is outside the claim. "
+         "Float lemma: single-segment quarter map, ftp=0, q in the listed set (thorough 1..960). Models: interp1d, defaultdict, np, real-dict workaround.",
+    technique="AST->SMT float kernel proof (z3 reals + binary64) and symbolic execution of real code (CrossHair/z3)",
+    ref="DESIGN.md §2 C04"),
 }
 NOT_APPLICABLE = {
  "C18": "float32/transcendental codec chain (log2, 2**x, mean/std, symbolic/symbolic division) over ~600 lines of vectorised numpy: non-linear with transcendental terms, z3 answers unknown; no sound bounded encoding within reach (DESIGN.md §2 C18)",
